@@ -529,6 +529,9 @@ Fixpoint all_lists (p : Z) (n : nat) : list poly :=
   | O => [[]]
   | S n' => flat_map (fun r => map (fun c => c :: r) (zrange 0 p)) (all_lists p n')
   end.
+(* every coefficient list of degree exactly n over [0,p) with a non-zero leading coefficient *)
+Definition canons (p : Z) (n : nat) : list poly :=
+  flat_map (fun l => map (fun c => l ++ [c]) (zrange 1 p)) (all_lists p n).
 Definition monics (p : Z) (n : nat) : list poly := map (fun l => l ++ [1]) (all_lists p n).   (* monic, degree n *)
 (* P has a monic divisor of degree k *)
 Definition has_divisor_deg (p : Z) (P : poly) (k : nat) : bool :=
